@@ -1,4 +1,6 @@
 import SpVerif.Lemmas.DaskFacts
+import SpVerif.Props.C04
+import Mathlib.Data.List.Induction
 /-!
 # C06 — a Dask geo frame answers exactly like the pandas frame it represents
 
@@ -76,6 +78,74 @@ partitions returned -/
 theorem C06_cx_partitions_lose_no_row (b : Box) (hb : orientBox b = b) (parts : List Part) (i : Nat) (hi : i < parts.length)
     (e : Elem) (he : some e ∈ parts.getD i []) (hit : elemIB b (some e) = true) : i ∈ cxPartitions b parts :=
   cxPartitions_keeps b hb parts i hi e he hit
+
+theorem cxPartitions_eq_filter (b : Box) (parts : List Part) :
+    cxPartitions b parts = (List.range parts.length).filter
+      (fun i => boxOverlaps [b.x0, b.y0, b.x1, b.y1] ((partitionBounds parts).getD i none)) := by
+  unfold cxPartitions
+  have hl : (partitionBounds parts).length = parts.length := by simp [partitionBounds]
+  generalize partitionBounds parts = pbs at hl
+  rw [← hl]
+  clear hl
+  induction pbs using List.reverseRecOn with
+  | nil => simp
+  | append_singleton xs x ih =>
+    rw [List.length_append, List.length_singleton, List.range_succ, List.zip_append (by simp), List.filterMap_append,
+      List.filter_append]
+    congr 1
+    · rw [ih]
+      apply List.filter_congr
+      intro i hi
+      have : i < xs.length := List.mem_range.mp hi
+      simp [List.getD_eq_getElem?_getD, List.getElem?_append_left this]
+    · simp only [List.filterMap_cons, List.filterMap_nil, List.filter_cons, List.filter_nil, List.getD_eq_getElem?_getD,
+        List.getElem?_append_right (Nat.le_refl _), Nat.sub_self, List.getElem?_cons_zero, Option.getD_some]
+      cases hx : boxOverlaps [b.x0, b.y0, b.x1, b.y1] x <;> simp [hx]
+
+/-- **Dask `.cx` is the partition-wise pandas `.cx`, pruning is invisible**: the rows returned are exactly, partition after
+partition and in their original order, the rows the pandas `.cx` selects in each partition - the partitions dropped by the
+partition-level index contribute nothing -/
+theorem C06_cx_exact (b : Box) (hb : orientBox b = b) (parts : List Part) :
+    daskCx b parts = (List.range parts.length).flatMap (fun i => (cxMask b (parts.getD i [])).map (fun j => (i, j))) := by
+  unfold daskCx
+  rw [cxPartitions_eq_filter]
+  have hdrop : ∀ i ∈ List.range parts.length,
+      boxOverlaps [b.x0, b.y0, b.x1, b.y1] ((partitionBounds parts).getD i none) = false →
+      (cxMask b (parts.getD i [])).map (fun j => (i, j)) = [] := by
+    intro i hi hno
+    have hi' := List.mem_range.mp hi
+    rw [List.map_eq_nil_iff]
+    by_contra hne
+    obtain ⟨j, hj⟩ := List.exists_mem_of_ne_nil _ hne
+    rw [C04_cx_exact] at hj
+    simp only [List.mem_filter, List.mem_range] at hj
+    obtain ⟨hjl, hit⟩ := hj
+    cases he : (parts.getD i []).getD j none with
+    | none => rw [he] at hit; simp [elemIB] at hit
+    | some e =>
+      rw [he] at hit
+      have hmem : some e ∈ parts.getD i [] := by
+        have h1 : (parts.getD i [])[j]? = some (some e) := by
+          have := he
+          rw [List.getD_eq_getElem?_getD, List.getElem?_eq_getElem hjl] at this
+          rw [List.getElem?_eq_getElem hjl]
+          simpa using this
+        exact List.mem_of_getElem? h1
+      have hk := cxPartitions_keeps b hb parts i hi' e hmem hit
+      rw [cxPartitions_eq_filter] at hk
+      simp only [List.mem_filter] at hk
+      rw [hk.2] at hno; cases hno
+  generalize List.range parts.length = idx at hdrop
+  induction idx with
+  | nil => rfl
+  | cons i rest ih =>
+    rw [List.filter_cons]
+    have ih' := ih (fun k hk => hdrop k (List.mem_cons_of_mem _ hk))
+    split
+    · simp only [List.flatMap_cons]; rw [ih']
+    · next hf =>
+      simp only [List.flatMap_cons]
+      rw [hdrop i (by simp) (by simpa using hf), List.nil_append, ih']
 
 /-- only rows that intersect the box are returned, each from a kept partition -/
 theorem C06_cx_sound (b : Box) (parts : List Part) (i j : Nat) (h : (i, j) ∈ daskCx b parts) :
